@@ -1,6 +1,7 @@
 package main
 
 import (
+	"go/constant"
 	"go/token"
 	"strings"
 
@@ -100,6 +101,50 @@ func edgeImpliesHasSuffixSep(pred, to *ssa.BasicBlock, v ssa.Value) bool {
 	return pred.Succs[trueSucc] == to && pred.Succs[1-trueSucc] != to
 }
 
+// rootFormsOf: the values a prefix operand was made from by appending a
+// separator, choosing between the two, or cleaning — the spellings of the
+// same root an equality test may name.
+func rootFormsOf(root ssa.Value) map[ssa.Value]bool {
+	out := map[ssa.Value]bool{}
+	var walk func(v ssa.Value, d int)
+	walk = func(v ssa.Value, d int) {
+		if v == nil || d > 8 {
+			return
+		}
+		if out[v] {
+			return
+		}
+		out[v] = true
+		if cv := canon(v); cv != v {
+			walk(cv, d+1)
+		}
+		switch x := v.(type) {
+		case *ssa.Phi:
+			for _, e := range x.Edges {
+				walk(e, d+1)
+			}
+		case *ssa.BinOp:
+			if x.Op == token.ADD {
+				if k, ok := x.Y.(*ssa.Const); ok && k.Value != nil && k.Value.Kind() == constant.String && isSepString(constant.StringVal(k.Value)) {
+					walk(x.X, d+1)
+				}
+			}
+		case *ssa.Call:
+			o := calleeObj(x)
+			if (isFunc(o, "path/filepath", "Clean") || isFunc(o, "path", "Clean")) && len(x.Call.Args) == 1 {
+				walk(x.Call.Args[0], d+1)
+			}
+			if (isFunc(o, "strings", "TrimSuffix") || isFunc(o, "strings", "TrimRight")) && len(x.Call.Args) == 2 {
+				if k, ok := x.Call.Args[1].(*ssa.Const); ok && k.Value != nil && k.Value.Kind() == constant.String && isSepString(constant.StringVal(k.Value)) {
+					walk(x.Call.Args[0], d+1)
+				}
+			}
+		}
+	}
+	walk(root, 0)
+	return out
+}
+
 // findContainments enumerates the containment decisions of fn.
 func findContainments(fn *ssa.Function) []Containment {
 	var out []Containment
@@ -119,13 +164,18 @@ func findContainments(fn *ssa.Function) []Containment {
 			k := Containment{Fn: fn, Kind: "hasprefix", Subject: subj, Root: root, At: call}
 			grp := append([]Edge{}, tE...)
 			// an equality test of the same subject against the same root (or the
-			// root without separator) counts as an alternative way in
+			// root without separator) counts as an alternative way in; an equality
+			// with anything else (an allow-list entry, say) is a decision of its own
+			rootForms := rootFormsOf(root)
 			eqT, _ := condEdges(fn, func(c ssa.Value) bool {
 				bo, ok := c.(*ssa.BinOp)
 				if !ok || bo.Op != token.EQL {
 					return false
 				}
-				return (canon(bo.X) == canon(subj) || canon(bo.Y) == canon(subj)) && bo.X.Type() == subj.Type()
+				if bo.X.Type() != subj.Type() {
+					return false
+				}
+				return (canon(bo.X) == canon(subj) && rootForms[canon(bo.Y)]) || (canon(bo.Y) == canon(subj) && rootForms[canon(bo.X)])
 			})
 			// NEQ form
 			_, neF := condEdges(fn, func(c ssa.Value) bool {
@@ -133,7 +183,7 @@ func findContainments(fn *ssa.Function) []Containment {
 				if !ok || bo.Op != token.NEQ {
 					return false
 				}
-				return canon(bo.X) == canon(subj) || canon(bo.Y) == canon(subj)
+				return (canon(bo.X) == canon(subj) && rootForms[canon(bo.Y)]) || (canon(bo.Y) == canon(subj) && rootForms[canon(bo.X)])
 			})
 			grp = append(grp, eqT...)
 			grp = append(grp, neF...)
